@@ -257,6 +257,66 @@ def f64_bits(rng):
     return rng.bits(64)
 
 
+def isqrt(x):
+    import math
+    return math.isqrt(x)
+
+
+def ksqrt_root(rng, bits):
+    """a root of exactly [bits] bits, patterns that reach the carry / overflow paths of the kernel"""
+    k = rng.below(7)
+    if k == 0:
+        return (1 << bits) - 1 - rng.choice([0, 0, 1, 2, rng.bits(8)])
+    if k == 1:
+        return (1 << (bits - 1)) + rng.choice([0, 0, 1, 2, rng.bits(8)])
+    if k == 2:  # low half zero / ones
+        h = bits // 2
+        return ((rng.bits(bits - h) | (1 << (bits - h - 1))) << h) | rng.choice([0, 1, (1 << h) - 1, (1 << h) - 2])
+    if k == 3:  # top word(s) full
+        j = rng.choice([W, 2 * W, bits // 2])
+        j = min(j, bits - 1)
+        return (((1 << j) - 1) << (bits - j)) | rng.bits(bits - j)
+    return rng.bits(bits) | (1 << (bits - 1))
+
+
+def ksqrt_case(rng, tier):
+    """hook level: the Karatsuba square root kernel on a normalised radicand of 2n words"""
+    n = rng.choice([2, 2, 3, 3, 4, 4, 5, 5, 6, 7, 8, 9, 10, 11, 12, 13, 15, 16, 17, 23, 24, 31, 32, 33, 47, 64, 65])
+    if tier == "thorough" and rng.chance(1, 20):
+        n = rng.choice([100, 129, 200, 257])
+    top = 1 << (2 * W * n)
+    k = rng.below(12)
+    if k <= 3:  # root^2 + remainder, remainder at the boundaries (0, 1, 2s, carry word)
+        s = ksqrt_root(rng, W * n)
+        r = rng.choice([0, 0, 1, 2 * s, 2 * s, 2 * s - 1, s, s + 1, rng.below(2 * s + 1), (1 << (W * n)) - 1, 1 << (W * n), (1 << (W * n)) + 1])
+        a = s * s + min(r, 2 * s)
+    elif k <= 6:  # the high part (at some level of the recursion) is t^2 - 1 - small: r1 = 2*s1, so q == B
+        lvl_n = n
+        path = []
+        while lvl_n > 2 and rng.chance(2, 3):
+            sp = lvl_n // 2
+            path.append(sp)
+            lvl_n -= sp
+        t = ksqrt_root(rng, W * lvl_n)
+        a = t * t + 2 * t - rng.choice([0, 0, 0, 1, 2, rng.bits(16)])
+        a = max(a, 1 << (2 * W * lvl_n - 2))
+        for sp in reversed(path):
+            lowk = rng.below(5)
+            low = [0, (1 << (2 * W * sp)) - 1, rng.bits(2 * W * sp), rng.bits(W * sp), rng.bits(W * sp) << (W * sp)][lowk]
+            a = (a << (2 * W * sp)) | low
+    elif k == 7:
+        a = top - 1 - rng.choice([0, 1, 2, rng.bits(10), rng.bits(W), rng.bits(W * n)])
+    elif k == 8:
+        a = (top >> 2) + rng.choice([0, 1, 2, rng.bits(10), rng.bits(W), rng.bits(W * n)])
+    elif k == 9:  # perfect square minus a little
+        s = ksqrt_root(rng, W * n)
+        a = max(top >> 2, s * s - rng.choice([1, 1, 2, 3, rng.bits(W)]))
+    else:
+        a = rng.bits(2 * W * n) | (rng.choice([1, 2, 3]) << (2 * W * n - 2))
+    a = min(max(a, top >> 2), top - 1)
+    return "ksqrt %x %s" % (n, hx(a))
+
+
 def sweep_cases(tier):
     """finite domains of the quantifier, exhaustively: log2_bounds of every u8 / u16 value (both builds);
     in the thorough tier also square / cube roots with remainder of every u8 / u16 value"""
@@ -305,6 +365,8 @@ def gen_cases(rng, tier, n):
                 g = prim_value(rng, max(1, bits // 3)) or 1
                 a, b = (g * rng.bits(bits // 3)) & ((1 << bits) - 1), (g * rng.bits(bits // 3)) & ((1 << bits) - 1)
             out.append("%s %s %s %s" % (rng.choice(["pgcd", "pgcd_ext", "pgcd_ext"]), ty, hx(a), hx(b)))
+        elif k < 34:
+            out.append(ksqrt_case(rng, tier))
         elif k < 38:
             x = radicand(rng, tier, 2)
             out.append("%s %s" % (rng.choice(["usqrt", "usqrt_rem", "usqrt_rem"]), hx(x)))
